@@ -15,15 +15,39 @@ use serde_json::json;
 use std::collections::HashMap;
 
 struct Export { line: String, steps: Vec<(String, Vec<usize>, usize, usize)>, rules: Vec<String>, nterms: usize,
-                /// the `R …` part of the line (the rules of the checking program, in the model's fragment)
-                rule_text: String,
+                /// Fiat steps exported as fiat steps / left as leaves (a top-level action outside the fragment)
+                fiat_steps: usize, fiat_steps_leafed: usize,
                 /// number of rules of the checking program (an index >= this names no rule)
                 nrules: usize,
                 /// Rule steps exported as rule steps / left as leaves (rule outside the modelled fragment)
                 rule_steps: usize, rule_steps_leafed: usize }
 
 type RRule = egglog::ast::GenericRule<egglog::ResolvedCall, egglog::ResolvedVar>;
+type RAction = egglog::ast::GenericAction<egglog::ResolvedCall, egglog::ResolvedVar>;
 type RExpr = egglog::ResolvedExpr;
+
+/// the checking program as the in-tree checker sees it (cfg hooks): its rules and its top-level actions
+struct ProgView { rules: Vec<RRule>, globals: Vec<RAction> }
+fn prog_view(eg: &EGraph) -> ProgView { ProgView { rules: eg.verif_proof_rules(), globals: eg.verif_proof_globals() } }
+
+/// action list as model tokens (`U`/`E`/`X`); variables used before any `let` of the list binds them go to `used`
+fn act_tokens(acts: &[&RAction], heads: &mut HashMap<String, usize>, vars: &mut HashMap<String, usize>, used: &mut Vec<String>) -> Option<Vec<String>> {
+    use egglog::ast::{GenericAction, GenericExpr};
+    let mut out = vec![]; let mut let_bound: Vec<String> = vec![];
+    for a in acts {
+        let mut u = vec![];
+        match a {
+            GenericAction::Union(_, l, r) => out.push(format!("U {} {}", pat(l, true, heads, vars, &mut u)?, pat(r, true, heads, vars, &mut u)?)),
+            GenericAction::Expr(_, e) => out.push(format!("E {}", pat(e, true, heads, vars, &mut u)?)),
+            GenericAction::Set(sp, f, args, rhs) => { let mut all = args.clone(); all.push(rhs.clone()); out.push(format!("E {}", pat(&GenericExpr::Call(sp.clone(), f.clone(), all), true, heads, vars, &mut u)?)); }
+            GenericAction::Panic(..) | GenericAction::Change(..) => {}
+            GenericAction::Let(_, v, e) => { let t = pat(e, true, heads, vars, &mut u)?; let n = vars.len(); let vi = *vars.entry(v.name.clone()).or_insert(n); out.push(format!("X v{vi} {t}")); }
+        }
+        for x in u { if !let_bound.contains(&x) { used.push(x); } }
+        if let GenericAction::Let(_, v, _) = a { let_bound.push(v.name.clone()); }
+    }
+    Some(out)
+}
 
 /// rule-side expression as pattern tokens; `None` = outside the modelled fragment (primitives, function
 /// calls where the checker does not evaluate them as terms)
@@ -45,8 +69,8 @@ fn pat(e: &RExpr, in_head: bool, heads: &mut HashMap<String, usize>, vars: &mut 
 
 /// `R <nb> <nh> F.. U../E..` for one rule of the checking program, with the variables it mentions
 fn rule_tokens(rule: &RRule, heads: &mut HashMap<String, usize>, vars: &mut HashMap<String, usize>) -> Option<(String, Vec<String>)> {
-    use egglog::ast::{FunctionSubtype, GenericAction, GenericExpr, GenericFact};
-    let mut used = vec![]; let mut body = vec![]; let mut head = vec![];
+    use egglog::ast::{FunctionSubtype, GenericExpr, GenericFact};
+    let mut used = vec![]; let mut body = vec![]; let mut head: Vec<String> = vec![];
     for f in &rule.body {
         match f {
             // proof normal form of a function fact: (= (f args..) v) is the row term f(args.., v), reflexively
@@ -61,15 +85,8 @@ fn rule_tokens(rule: &RRule, heads: &mut HashMap<String, usize>, vars: &mut Hash
             GenericFact::Fact(e) => { let t = pat(e, false, heads, vars, &mut used)?; body.push(format!("F 1 {t} {t}")); }
         }
     }
-    for a in &rule.head.0 {
-        match a {
-            GenericAction::Union(_, l, r) => head.push(format!("U {} {}", pat(l, true, heads, vars, &mut used)?, pat(r, true, heads, vars, &mut used)?)),
-            GenericAction::Expr(_, e) => head.push(format!("E {}", pat(e, true, heads, vars, &mut used)?)),
-            GenericAction::Set(sp, f, args, rhs) => { let mut all = args.clone(); all.push(rhs.clone()); head.push(format!("E {}", pat(&GenericExpr::Call(sp.clone(), f.clone(), all), true, heads, vars, &mut used)?)); }
-            GenericAction::Panic(..) | GenericAction::Change(..) => {}
-            GenericAction::Let(..) => return None,
-        }
-    }
+    let head_refs: Vec<&RAction> = rule.head.0.iter().collect();
+    head.extend(act_tokens(&head_refs, heads, vars, &mut used)?);
     used.sort(); used.dedup();
     Some((format!(" R {} {} {} {}", body.len(), head.len(), body.join(" "), head.join(" ")).replace("  ", " ").trim_end().to_string(), used))
 }
@@ -77,12 +94,14 @@ fn rule_tokens(rule: &RRule, heads: &mut HashMap<String, usize>, vars: &mut Hash
 
 /// `prog_rules`: the rules of the checking program (cfg hook `verif_proof_rules`); with them, Rule steps are
 /// exported as rule steps for the Lean checker (theorem C12_rule_sound), otherwise as leaves
-fn export_with(store: &ProofStore, root: ProofId, prog_rules: Option<&[RRule]>) -> Option<Export> {
+fn export_with(store: &ProofStore, root: ProofId, prog: Option<&ProgView>) -> Option<Export> {
+    let prog_rules: Option<&[RRule]> = prog.map(|p| &p.rules[..]);
     // the checker builds the instances of a rule's expressions in its TermDag (`TermDag::app` hash-conses); the
     // model only looks terms up, so the instances of every used rule's body and head expressions are built here
     // (in a copy of the proof's dag: existing terms keep their ids) and exported with the proof's own terms
     let mut dag_owned = store.term_dag().clone();
     let mut extra: Vec<TermId> = vec![];
+    let mut global_bind: HashMap<String, TermId> = HashMap::new();
     if let Some(prs) = prog_rules {
         use egglog::ast::{GenericAction, GenericExpr, GenericFact};
         fn inst(e: &RExpr, sub: &HashMap<String, TermId>, dag: &mut egglog::TermDag) -> Option<TermId> {
@@ -93,6 +112,17 @@ fn export_with(store: &ProofStore, root: ProofId, prog_rules: Option<&[RRule]>) 
                 GenericExpr::Call(_, egglog::ResolvedCall::Primitive(_), _) => None,
             }
         }
+        // thread the bindings of `let`s through an action list, building every evaluated expression
+        fn inst_acts(acts: &[&RAction], sub: &mut HashMap<String, TermId>, dag: &mut egglog::TermDag, extra: &mut Vec<TermId>) {
+            for a in acts { match a {
+                GenericAction::Union(_, l, r) => { for e in [l, r] { if let Some(t) = inst(e, sub, dag) { extra.push(t); } } }
+                GenericAction::Expr(_, e) => { if let Some(t) = inst(e, sub, dag) { extra.push(t); } }
+                GenericAction::Set(sp, f, args, rhs) => { let mut all = args.clone(); all.push(rhs.clone()); if let Some(t) = inst(&GenericExpr::Call(sp.clone(), f.clone(), all), sub, dag) { extra.push(t); } }
+                GenericAction::Let(_, v, e) => { if let Some(t) = inst(e, sub, dag) { extra.push(t); sub.insert(v.name.clone(), t); } }
+                _ => {} } }
+        }
+        let grefs: Vec<&RAction> = prog.map(|p| p.globals.iter().collect()).unwrap_or_default();
+        inst_acts(&grefs, &mut global_bind, &mut dag_owned, &mut extra);
         let mut seen: std::collections::HashSet<ProofId> = Default::default(); let mut todo = vec![root];
         while let Some(p) = todo.pop() {
             if !seen.insert(p) { continue; }
@@ -103,10 +133,10 @@ fn export_with(store: &ProofStore, root: ProofId, prog_rules: Option<&[RRule]>) 
                         let mut es: Vec<RExpr> = vec![];
                         for f in &rule.body { match f { GenericFact::Eq(sp, GenericExpr::Call(_, h @ egglog::ResolvedCall::Func(_), args), v @ GenericExpr::Var(..)) => { let mut all = args.clone(); all.push(v.clone()); es.push(GenericExpr::Call(sp.clone(), h.clone(), all)); es.extend(args.iter().cloned()); }
                             GenericFact::Eq(_, l, r) => { es.push(l.clone()); es.push(r.clone()); } GenericFact::Fact(e) => es.push(e.clone()) } }
-                        for a in &rule.head.0 { match a { GenericAction::Union(_, l, r) => { es.push(l.clone()); es.push(r.clone()); } GenericAction::Expr(_, e) => es.push(e.clone()),
-                            GenericAction::Set(sp, f, args, rhs) => { let mut all = args.clone(); all.push(rhs.clone()); es.push(GenericExpr::Call(sp.clone(), f.clone(), all)); } _ => {} } }
-                        let sub: HashMap<String, TermId> = substitution.iter().map(|(k, v)| (k.clone(), *v)).collect();
+                        let mut sub: HashMap<String, TermId> = global_bind.clone(); sub.extend(substitution.iter().map(|(k, v)| (k.clone(), *v)));
                         for e in &es { if let Some(t) = inst(e, &sub, &mut dag_owned) { extra.push(t); } }
+                        let hrefs: Vec<&RAction> = rule.head.0.iter().collect();
+                        inst_acts(&hrefs, &mut sub, &mut dag_owned, &mut extra);
                     }
                 }
                 Justification::MergeFn { old_proof, new_proof, .. } => { todo.push(*old_proof); todo.push(*new_proof); }
@@ -139,15 +169,20 @@ fn export_with(store: &ProofStore, root: ProofId, prog_rules: Option<&[RRule]>) 
     let mut vars: HashMap<String, usize> = HashMap::new();
     let rule_toks: Vec<(String, Option<(String, Vec<String>)>)> = prog_rules.map(|rs| rs.iter().map(|r| (r.name.clone(), rule_tokens(r, &mut heads, &mut vars))).collect()).unwrap_or_default();
     let have_rules = prog_rules.is_some();
-    struct RuleCtx<'a> { have: bool, toks: &'a [(String, Option<(String, Vec<String>)>)], vars: &'a HashMap<String, usize>, exported: usize, leafed: usize }
-    let mut rc = RuleCtx { have: have_rules, toks: &rule_toks, vars: &vars, exported: 0, leafed: 0 };
+    // the top-level actions; outside the fragment (a primitive call) -> Fiat steps stay leaves and no global binds
+    let mut gused = vec![];
+    let global_toks: Option<Vec<String>> = prog.and_then(|p| { let refs: Vec<&RAction> = p.globals.iter().collect(); act_tokens(&refs, &mut heads, &mut vars, &mut gused) }).filter(|_| gused.is_empty());
+    let global_names: Vec<String> = if global_toks.is_some() { global_bind.keys().cloned().collect() } else { vec![] };
+    struct RuleCtx<'a> { have: bool, toks: &'a [(String, Option<(String, Vec<String>)>)], vars: &'a HashMap<String, usize>, exported: usize, leafed: usize,
+                         fiat_ok: bool, globals: &'a [String], fiat: usize, fiat_leafed: usize }
+    let mut rc = RuleCtx { have: have_rules, toks: &rule_toks, vars: &vars, exported: 0, leafed: 0, fiat_ok: global_toks.is_some(), globals: &global_names, fiat: 0, fiat_leafed: 0 };
     fn go(store: &ProofStore, p: ProofId, step_ix: &mut HashMap<ProofId, usize>, steps: &mut Vec<(String, Vec<usize>, usize, usize)>, rules: &mut Vec<String>,
           tf: &mut dyn FnMut(TermId) -> usize, rc: &mut RuleCtx) -> Option<usize> {
         if let Some(i) = step_ix.get(&p) { return Some(*i); }
         let pr = store.get(p);
         let (l, r) = (tf(pr.lhs()), tf(pr.rhs()));
         let (kind, args) = match pr.justification() {
-            Justification::Fiat => ("leaf".to_string(), vec![]),
+            Justification::Fiat => if rc.fiat_ok { rc.fiat += 1; ("fiat".to_string(), vec![]) } else { if rc.have { rc.fiat_leafed += 1; } ("leaf".to_string(), vec![]) },
             Justification::Rule { name, premise_proofs, substitution } => {
                 rules.push(name.clone());
                 let mut prem = vec![]; for q in premise_proofs { prem.push(go(store, *q, step_ix, steps, rules, tf, rc)?); }
@@ -157,7 +192,7 @@ fn export_with(store: &ProofStore, root: ProofId, prog_rules: Option<&[RRule]>) 
                         None => { rc.exported += 1; let mut a = vec![rc.toks.len(), prem.len()]; a.extend(prem); a.push(0); ("rule".to_string(), a) }
                         Some(ri) => match &rc.toks[ri].1 {
                             // every variable the rule mentions must come from the step's substitution (no globals)
-                            Some((_, used)) if used.iter().all(|v| substitution.contains_key(v)) => {
+                            Some((_, used)) if used.iter().all(|v| substitution.contains_key(v) || rc.globals.contains(v)) => {
                                 rc.exported += 1;
                                 let mut a = vec![ri, prem.len()]; a.extend(prem);
                                 let mut sub: Vec<(usize, usize)> = substitution.iter().filter_map(|(v, t)| rc.vars.get(v).map(|vi| (*vi, tf(*t)))).collect(); sub.sort();
@@ -182,9 +217,12 @@ fn export_with(store: &ProofStore, root: ProofId, prog_rules: Option<&[RRule]>) 
     for t in extra { tf(t); }
     let nterms = terms.len();
     // rules outside the fragment keep their index as an empty rule (steps that use them were exported as leaves)
-    let rule_text: String = rule_toks.iter().map(|(_, t)| t.as_ref().map(|x| x.0.clone()).unwrap_or_else(|| " R 0 0".to_string())).collect();
+    let mut rule_text: String = rule_toks.iter().map(|(_, t)| t.as_ref().map(|x| x.0.clone()).unwrap_or_else(|| " R 0 0".to_string())).collect();
+    if let Some(g) = &global_toks { rule_text.push_str(&format!(" G {} {}", g.len(), g.join(" ")).replace("  ", " ")); rule_text = rule_text.trim_end().to_string(); }
+    if have_rules { let mut lits: Vec<usize> = heads.iter().filter(|(h, _)| h.starts_with("lit:")).map(|(_, i)| *i).collect(); lits.sort();
+        rule_text.push_str(&format!(" L {}", if lits.is_empty() { "-".to_string() } else { lits.iter().map(|x| x.to_string()).collect::<Vec<_>>().join(",") })); }
     let line = render(&terms, &steps).replacen("pk check", &format!("pk check{rule_text}"), 1);
-    Some(Export { line, steps, rules, nterms, rule_text, nrules: rule_toks.len(), rule_steps: rc.exported, rule_steps_leafed: rc.leafed })
+    Some(Export { line, steps, rules, nterms, nrules: rule_toks.len(), rule_steps: rc.exported, rule_steps_leafed: rc.leafed, fiat_steps: rc.fiat, fiat_steps_leafed: rc.fiat_leafed })
 }
 
 fn render(terms: &[(usize, Vec<usize>)], steps: &[(String, Vec<usize>, usize, usize)]) -> String {
@@ -203,6 +241,21 @@ pub fn run(ctx: &Ctx) -> Report {
     let n = ctx.n(40, 800);
     // expectation on the Lean checker: 1 = must accept, 0 = mutation (rejected unless still derivable), -1 = must reject
     let mut lean_lines: Vec<String> = vec![]; let mut lean_expect: Vec<(i8, String, serde_json::Value)> = vec![];
+    // directed: a global `let` used by a rule and by the proved fact (the checker's global bindings)
+    {
+        let prog = "(sort E)\n(constructor A () E)\n(constructor B () E)\n(constructor G (E) E)\n(ruleset r0)\n(let g (G (A)))\n(B)\n(rule ((= x (G y))) ((union x (B))) :ruleset r0 :name \"toB\")\n(run r0 1)";
+        let mut pr = EGraph::new_with_proofs();
+        if engine::run(&mut pr, prog).is_ok() {
+            if let Ok(outs) = engine::run_outputs(&mut pr.clone(), "(prove (= g (B)))") {
+                if let Some(CommandOutput::ProveExists { proof_store, proof_id }) = outs.into_iter().find(|o| matches!(o, CommandOutput::ProveExists { .. })) {
+                    rep.evaluations += 1;
+                    if pr.verif_check_proof(&proof_store, proof_id).is_ok() { if let Some(ex) = export_with(&proof_store, proof_id, Some(&prog_view(&pr))) {
+                        rep.count("fiat_steps_exported_as_fiat_steps", ex.fiat_steps as u64);
+                        lean_lines.push(ex.line.clone()); lean_expect.push((1, "directed proof of (= g (B)) with a global let".to_string(), json!({"program": prog}))); } }
+                }
+            }
+        }
+    }
     // directed: proofs that rest on a NAMED rule with k premises, re-checked against programs in which that rule is
     // removed, or has one more premise at the end / at the front of its body, or a different head
     for k in 1..=3usize {
@@ -217,7 +270,7 @@ pub fn run(ctx: &Ctx) -> Report {
         let Some(CommandOutput::ProveExists { proof_store, proof_id }) = outs.into_iter().find(|o| matches!(o, CommandOutput::ProveExists { .. })) else { continue };
         rep.evaluations += 1; rep.note_nontrivial(&("directed-rule", k));
         if let Err(e) = pr.verif_check_proof(&proof_store, proof_id) { rep.violate("property", "c12-proof-rejected", format!("directed scenario: the proof is rejected against the original program: {e}"), json!({"program": prog})); continue; }
-        if let Some(ex) = export_with(&proof_store, proof_id, Some(&pr.verif_proof_rules())) {
+        if let Some(ex) = export_with(&proof_store, proof_id, Some(&prog_view(&pr))) {
             if ex.rule_steps == 0 || ex.rule_steps_leafed > 0 { rep.violate("correspondence", "c12-directed-rule-not-exported", format!("directed scenario with {k} premises: {} Rule steps exported, {} left as leaves", ex.rule_steps, ex.rule_steps_leafed), json!({"program": prog})); }
             lean_lines.push(ex.line.clone()); lean_expect.push((1, format!("directed proof of (= (G (A)) (A)) through rule `collapse` with {k} premises"), json!({"program": prog})));
         }
@@ -227,7 +280,7 @@ pub fn run(ctx: &Ctx) -> Report {
             if !engine::run(&mut ae, &aprog).is_ok() { continue; }
             rep.count("rule_alteration_rechecks", 1);
             if ae.verif_check_proof(&proof_store, proof_id).is_ok() { rep.violate("property", "c12-accepts-altered-rule", format!("a proof resting on rule `collapse` ({k} premises) is accepted against a program in which that rule was {what}"), json!({"program": prog, "altered_program": aprog})); }
-            else if let Some(ax) = export_with(&proof_store, proof_id, Some(&ae.verif_proof_rules())) { if ax.rule_steps_leafed == 0 { lean_lines.push(ax.line.clone()); lean_expect.push((-1, format!("directed proof through rule `collapse` ({k} premises) against the program in which that rule was {what}"), json!({"program": prog, "altered_program": aprog}))); } }
+            else if let Some(ax) = export_with(&proof_store, proof_id, Some(&prog_view(&ae))) { if ax.rule_steps_leafed == 0 { lean_lines.push(ax.line.clone()); lean_expect.push((-1, format!("directed proof through rule `collapse` ({k} premises) against the program in which that rule was {what}"), json!({"program": prog, "altered_program": aprog}))); } }
         }
     }
     for pi in 0..n {
@@ -264,9 +317,10 @@ pub fn run(ctx: &Ctx) -> Report {
                     rep.count("proofs_obtained", 1);
                     // in-tree checker against the unaltered program (through the hook) must accept
                     if let Err(e) = pr.verif_check_proof(&proof_store, proof_id) { rep.violate("property", "c12-proof-rejected", format!("the proof returned for {f} is rejected by the checker against the original program: {e}"), prog()); continue; }
-                    let prules = pr.verif_proof_rules();
+                    let prules = prog_view(&pr);
                     let Some(ex) = export_with(&proof_store, proof_id, Some(&prules)) else { rep.count("proofs_with_container_steps_skipped", 1); continue };
                     rep.count("rule_steps_exported_as_rule_steps", ex.rule_steps as u64); rep.count("rule_steps_left_as_leaves(outside fragment)", ex.rule_steps_leafed as u64);
+                    rep.count("fiat_steps_exported_as_fiat_steps", ex.fiat_steps as u64); rep.count("fiat_steps_left_as_leaves(outside fragment)", ex.fiat_steps_leafed as u64);
                     // single-point mutations of Rule steps that must be rejected outright: a dropped premise
                     // (C12_dropped_premise_rejected), a rule the program does not have (C12_rule_missing_rejected)
                     for (mi, st) in ex.steps.iter().enumerate() {
@@ -305,7 +359,7 @@ pub fn run(ctx: &Ctx) -> Report {
                             let mut ae = EGraph::new_with_proofs(); engine::run(&mut ae, &hdr); for c in &altered { engine::run(&mut ae, c); }
                             rep.count("rule_removal_rechecks", 1); rep.note_nontrivial(&(&full, &f, rname));
                             if ae.verif_check_proof(&proof_store, proof_id).is_ok() { rep.violate("property", "c12-accepts-without-rule", format!("the proof of {f} uses rule `{rname}` yet is accepted against a program from which that rule was removed"), prog()); }
-                            else if let Some(ax) = export_with(&proof_store, proof_id, Some(&ae.verif_proof_rules())) { if ax.rule_steps_leafed == 0 { lean_lines.push(ax.line.clone()); lean_expect.push((-1, format!("proof of {f} against the program without rule `{rname}`"), prog())); } }
+                            else if let Some(ax) = export_with(&proof_store, proof_id, Some(&prog_view(&ae))) { if ax.rule_steps_leafed == 0 { lean_lines.push(ax.line.clone()); lean_expect.push((-1, format!("proof of {f} against the program without rule `{rname}`"), prog())); } }
                         }
                         // ALTER a used rule: the same name, one more premise in its body — a proof that supplies the old
                         // number of premise proofs does not justify a step of the altered rule
@@ -321,13 +375,14 @@ pub fn run(ctx: &Ctx) -> Report {
                             if !ok { continue; }
                             rep.count("rule_alteration_rechecks", 1); rep.note_nontrivial(&(&full, &f, rname, "altered"));
                             if ae.verif_check_proof(&proof_store, proof_id).is_ok() { rep.violate("property", "c12-accepts-altered-rule", format!("the proof of {f} uses rule `{rname}` yet is accepted against a program in which that rule has an additional premise"), prog()); }
-                            else if let Some(ax) = export_with(&proof_store, proof_id, Some(&ae.verif_proof_rules())) { if ax.rule_steps_leafed == 0 { lean_lines.push(ax.line.clone()); lean_expect.push((-1, format!("proof of {f} against the program in which rule `{rname}` has an additional premise"), prog())); } }
+                            else if let Some(ax) = export_with(&proof_store, proof_id, Some(&prog_view(&ae))) { if ax.rule_steps_leafed == 0 { lean_lines.push(ax.line.clone()); lean_expect.push((-1, format!("proof of {f} against the program in which rule `{rname}` has an additional premise"), prog())); } }
                         }
                         // remove every top-level ground insertion / union: any Fiat step must become unjustified
                         let altered: Vec<&String> = text.iter().zip(&cmds).filter(|(_, c)| !matches!(c, Cmd::Act(_))).map(|(t, _)| t).collect();
                         let mut ae = EGraph::new_with_proofs(); engine::run(&mut ae, &hdr); for c in &altered { engine::run(&mut ae, c); }
                         rep.count("fact_removal_rechecks", 1);
                         if ae.verif_check_proof(&proof_store, proof_id).is_ok() { rep.violate("property", "c12-accepts-without-facts", format!("the proof of {f} is accepted against a program with every top-level fact removed"), prog()); }
+                        else if let Some(ax) = export_with(&proof_store, proof_id, Some(&prog_view(&ae))) { if ax.rule_steps_leafed == 0 && ax.fiat_steps_leafed == 0 && ax.fiat_steps > 0 { lean_lines.push(ax.line.clone()); lean_expect.push((-1, format!("proof of {f} against the program with every top-level fact removed"), prog())); } }
                     }
                 }
             }
